@@ -184,7 +184,7 @@ class Worker:
             rc, o = sh(["cargo", "build", "--offline", "-j", "3"], cwd=self.repo, env=env, timeout=600)
             if rc != 0:
                 return "stillborn", ""
-            rc, o = sh(["cargo", "test", "--offline", "--lib", "-j", "3"], cwd=self.repo, env=env, timeout=600)
+            rc, o = sh(["cargo", "test", "--offline", "--lib", "-j", "3"], cwd=self.repo, env=env, timeout=150)
             if rc != 0:
                 m = re.findall(r"test (\S+) \.\.\. FAILED", o)
                 return "killed:tests", ",".join(m[:3]) or ("timeout" if rc == 124 else "abort")
@@ -202,7 +202,7 @@ class Worker:
                 outf = os.path.join(self.tmp, "out.json")
                 if os.path.exists(outf):
                     os.remove(outf)
-                rc, o = sh([os.path.join(bin_, "sstverif"), p, "--tier", "quick", "--seed", "1", "--driver", DRIVER, "--threads", "3", "--out", outf], timeout=900)
+                rc, o = sh([os.path.join(bin_, "sstverif"), p, "--tier", "quick", "--seed", "1", "--driver", DRIVER, "--threads", "3", "--out", outf], timeout=420)
                 if rc != 0 or not os.path.exists(outf):
                     return "killed:%s" % p, "crash/hang rc=%s" % rc
                 j = json.load(open(outf))
